@@ -1,5 +1,184 @@
-"""Checker self-validation (thorough tier): seeded-fault variants of the current tree.  Filled in later."""
+"""Checker self-validation (thorough tier).
+
+From the *current working tree* of the repository, in a temporary directory outside /repo and /verif:
+  * behaviour-preserving twins (re-formatted source; locals and callback parameters renamed; library text
+    with changed keyword case and extra blank/comment lines) - the rules of the property must stay silent;
+  * every confirmed seeded fault under /verif/seeded whose expected detection includes the property
+    (applied with `patch`) - the rules must report a violation.
+A twin that raises an alarm or a seed that is no longer detected means the checker is broken: reported as
+`ANALYSIS-ERROR selftest ...`, exit status 2.  Variants are evaluated by a process pool (16 workers).
+"""
+
+from __future__ import annotations
+
+import ast
+import json
+import os
+import re
+import shutil
+import subprocess
+import sys
+import tempfile
+from concurrent.futures import ProcessPoolExecutor
+from pathlib import Path
+from typing import Dict, List, Optional, Tuple
+
+from . import core
+
+SEEDED = core.VERIF / "seeded"
 
 
-def run_selftest(ctx, pid) -> int:
-    return 0
+# ---------------------------------------------------------------------------
+# twins
+
+
+class _Ren(ast.NodeTransformer):
+    def __init__(self, mapping):
+        self.m = mapping
+
+    def visit_Name(self, n):
+        if n.id in self.m:
+            n.id = self.m[n.id]
+        return n
+
+    def visit_arg(self, n):
+        if n.arg in self.m:
+            n.arg = self.m[n.arg]
+        return n
+
+
+def _rename_fn(fn: ast.FunctionDef, rename_params: bool):
+    stored = set()
+    for x in ast.walk(fn):
+        if isinstance(x, ast.Name) and isinstance(x.ctx, ast.Store):
+            stored.add(x.id)
+        if isinstance(x, (ast.Global, ast.Nonlocal)):
+            return
+    if any(isinstance(x, (ast.FunctionDef, ast.Lambda)) and x is not fn for x in ast.walk(fn)):
+        return
+    params = {a.arg for a in fn.args.args + fn.args.kwonlyargs}
+    ren = {n: n + "_r" for n in stored if n not in params and not n.startswith("__")}
+    if rename_params:
+        for a in fn.args.args[1:]:
+            if a.arg != "_":
+                ren[a.arg] = a.arg + "_p"
+    _Ren(ren).visit(fn)
+
+
+def make_twin(repo: Path, dst: Path, kind: str):
+    shutil.copytree(repo / "coco", dst / "coco", ignore=shutil.ignore_patterns("__pycache__", "*.pyc"))
+    if kind == "reformat":
+        for p in (dst / "coco").rglob("*.py"):
+            p.write_text(ast.unparse(ast.parse(p.read_text())) + "\n")
+    elif kind == "rename":
+        for rel in ("parser.py", "visitors.py", "elements.py", "procbank.py", "prog.py", "error_handler.py"):
+            p = dst / "coco" / "b09" / rel
+            t = ast.parse(p.read_text())
+            for c in t.body:
+                if isinstance(c, ast.ClassDef):
+                    for f in c.body:
+                        if isinstance(f, ast.FunctionDef):
+                            isvis = f.name.startswith("visit") or f.name == "generic_visit"
+                            _rename_fn(f, isvis and f.name != "__init__")
+                elif isinstance(c, ast.FunctionDef) and c.name not in ("convert", "convert_file", "generate", "start", "main"):
+                    _rename_fn(c, False)
+            p.write_text(ast.unparse(t) + "\n")
+    elif kind == "library-layout":
+        p = dst / "coco" / "resources" / "ecb.b09"
+        out = []
+        for ln in re.split(r"(\r\n|\r|\n)", p.read_text()):
+            if ln in ("\r\n", "\r", "\n"):
+                out.append(ln)
+                continue
+            s = ln
+            # keyword case is insignificant in BASIC09; so is an extra comment line in front of a procedure
+            s = re.sub(r"^(\s*)(param|dim|type)\b", lambda m: m.group(1) + m.group(2).upper(), s)
+            s = re.sub(r"^(\s*)(ENDIF|ENDWHILE|ENDLOOP|ENDEXIT|NEXT)\b", lambda m: m.group(1) + m.group(2).lower(), s)
+            out.append(s)
+        p.write_text("".join(out))
+    else:
+        raise ValueError(kind)
+
+
+TWINS = ["reformat", "rename", "library-layout"]
+
+
+# ---------------------------------------------------------------------------
+
+
+def _run_variant(args) -> dict:
+    """Worker: evaluate property `pid` on a variant tree; returns new-violation keys and errors."""
+    kind, name, pid, repo = args
+    tmp = Path(tempfile.mkdtemp(prefix="sa_selftest_"))
+    try:
+        if kind == "twin":
+            make_twin(Path(repo), tmp, name)
+        else:
+            shutil.copytree(Path(repo) / "coco", tmp / "coco", ignore=shutil.ignore_patterns("__pycache__", "*.pyc"))
+            patch = SEEDED / name / "patch.diff"
+            pr = subprocess.run(["patch", "-p1", "-s", "-d", str(tmp), "-i", str(patch)], capture_output=True, text=True)
+            if pr.returncode != 0:
+                return {"kind": kind, "name": name, "skipped": "patch does not apply to the current tree: " + (pr.stdout + pr.stderr)[-200:]}
+        from .check import load_rules
+
+        load_rules()
+        ctx = core.Ctx(tmp, "thorough")
+        rids, obligations, errors, new, known_hit = core.evaluate_property(ctx, pid)
+        return {
+            "kind": kind,
+            "name": name,
+            "new": sorted({f.key for f in new}),
+            "errors": [str(e)[:200] for e in errors],
+            "instances": len([o for o in obligations if not o.info]),
+        }
+    except Exception as e:  # a crashing variant is a checker failure, reported by the caller
+        return {"kind": kind, "name": name, "crash": f"{type(e).__name__}: {e}"}
+    finally:
+        shutil.rmtree(tmp, ignore_errors=True)
+
+
+def seeds_for(pid: str) -> List[str]:
+    out = []
+    if not SEEDED.is_dir():
+        return out
+    for d in sorted(SEEDED.iterdir()):
+        mf = d / "meta.json"
+        if not mf.exists() or not (d / "patch.diff").exists():
+            continue
+        try:
+            m = json.loads(mf.read_text())
+        except Exception:
+            continue
+        if m.get("confirmed") and pid in (m.get("detected_by_checks") or []):
+            out.append(d.name)
+    return out
+
+
+def run_selftest(ctx: core.Ctx, pid: str) -> Tuple[int, dict]:
+    tasks = [("twin", k, pid, str(ctx.repo)) for k in TWINS] + [("seed", s, pid, str(ctx.repo)) for s in seeds_for(pid)]
+    workers = min(16, max(1, len(tasks)))
+    with ProcessPoolExecutor(max_workers=workers) as ex:
+        results = list(ex.map(_run_variant, tasks))
+    status = 0
+    summary = {"twins": {}, "seeds": {}, "skipped": []}
+    for r in results:
+        if "crash" in r:
+            print(f"ANALYSIS-ERROR selftest {r['kind']}:{r['name']}: checker crashed on the variant: {r['crash']}")
+            status = 2
+            continue
+        if "skipped" in r:
+            summary["skipped"].append({r["name"]: r["skipped"]})
+            continue
+        if r["kind"] == "twin":
+            summary["twins"][r["name"]] = {"instances": r["instances"], "alarms": r["new"], "errors": r["errors"]}
+            if r["new"] or r["errors"]:
+                print(f"ANALYSIS-ERROR selftest twin:{r['name']}: a behaviour-preserving variant raises {r['new'] or r['errors']} for {pid}")
+                status = 2
+        else:
+            summary["seeds"][r["name"]] = {"reported": r["new"][:4]}
+            if not r["new"]:
+                print(f"ANALYSIS-ERROR selftest seed:{r['name']}: the seeded fault is no longer reported for {pid}")
+                status = 2
+    n_t, n_s = len(summary["twins"]), len(summary["seeds"])
+    print(f"selftest {pid}: {n_t} behaviour-preserving twins silent, {n_s} seeded faults detected, {len(summary['skipped'])} skipped" if status == 0 else f"selftest {pid}: FAILED")
+    return status, summary
